@@ -79,6 +79,18 @@ CLAIMED = {
         "round-trip is not decided.",
         design_ref="DESIGN.md §4 C05",
     ),
+    "C06": dict(
+        technique=TECH + "sibling field-order agreement of Scan and ZonefileFmt/Display, finite octet sets of the "
+        "label writer vs the reader's delimiter classifier, mnemonic-table disjointness, straight-line symbolic "
+        "evaluation of the reader's label cursor cap",
+        text="Decides structural necessary conditions of C06: for each record type whose scan constructor is "
+        "resolvable, Scan reads the fields in the order ZonefileFmt writes them; every octet the entry reader "
+        "(Symbol::is_word_char and friends) treats as a delimiter, quote, comment or escape is escaped by "
+        "Label's Display; no mnemonic is emitted for a Class that the reader resolves as an Rtype (or vice versa); "
+        "convert_label admits labels up to exactly 63 octets. Value-level round-trip equality over all record "
+        "sets is not decided.",
+        design_ref="DESIGN.md §4 C06",
+    ),
     "C09": dict(
         technique=TECH + "version-argument provenance dataflow on read and write paths, who-may-write audit of "
         "version fields, lock-before-version dominance in the async writer constructor (pre-transform coroutine "
@@ -307,7 +319,7 @@ def main():
         print("MANIFEST.json written (jsonschema not available in this interpreter)")
 
 
-SOURCE_COMMITS = ["6d017b8", "5bee0e2", "d442263", "1972f03", "e564cac", "7c5564a", "eac9679", "3d7d923", "6138459", "e52828b", "7010af2", "d5ab2d6", "a685388", "e5bfc9a"]
+SOURCE_COMMITS = ["6d017b8", "5bee0e2", "d442263", "1972f03", "e564cac", "7c5564a", "eac9679", "3d7d923", "6138459", "e52828b", "7010af2", "d5ab2d6", "a685388", "e5bfc9a", "cd1aabd"]
 
 if __name__ == "__main__":
     main()
